@@ -276,6 +276,14 @@ func (w *world) resolver(ctx context.Context, released func()) (*val, func(), er
 			rc.err = context.Canceled
 		}
 		w.byErr[rc.err] = rc
+		if c.S.PlanP(150) {
+			// a value, a release function and an error all at once: the value is part of the
+			// (error) result and is released like any other, not before the references were told
+			c.S.Count("probe:value-with-error-result")
+			rc.v = &val{id: rc.n}
+			rc.hasRel = true
+			return rc.v, w.mkRelease(rc), rc.err
+		}
 		if c.S.PlanP(500) {
 			rc.hasRel = true
 			return nil, w.mkRelease(rc), rc.err
@@ -336,6 +344,18 @@ func (w *world) refHolder(id, nops int) {
 			cb = func(resolved bool, v *val, err error) {
 				rc := w.rcOfTold(resolved, v, err)
 				h.told = append(h.told, told{resolved, v, err, c.Tick(), rc})
+				// C08: a value is never exposed after its release function has run
+				if resolved && v != nil && rc != nil && rc.rel > 0 {
+					nsame := 0
+					for _, o := range w.calls {
+						if o.v == v {
+							nsame++
+						}
+					}
+					if nsame == 1 {
+						c.Fail("C08.E2.released-value-delivered", "a reference callback was told that value %d is the current result although the value's release function had already run", rc.n)
+					}
+				}
 				if resolved && rc != nil && rc.hasRel && rc.released != nil && c.S.FaultP(40) {
 					// the reference callback (it runs with the RefCount's lock held)
 					// declares the value it was just given invalid
